@@ -122,6 +122,7 @@ class ShapeV:
 class DictV:
     d: Dict[str, Any]
     known: bool = True
+    mutated: bool = False
 
 
 @dataclass
@@ -264,6 +265,8 @@ class SizeEval:
             base = self.ev(e.value, env, fi)
             if isinstance(base, DictV) and isinstance(e.slice, ast.Constant) and e.slice.value in base.d:
                 return base.d[e.slice.value]
+            if isinstance(base, DictV):
+                return Unknown("dictionary entry")
             if isinstance(base, TupleV) and isinstance(e.slice, ast.Constant) and isinstance(e.slice.value, int) and -len(base.items) <= e.slice.value < len(base.items):
                 return base.items[e.slice.value]
             if isinstance(base, SeqV) and isinstance(e.slice, ast.Slice):
@@ -310,6 +313,15 @@ class SizeEval:
     def compare(self, e: ast.Compare, env, fi) -> Any:
         l, r = self.ev(e.left, env, fi), self.ev(e.comparators[0], env, fi)
         op = e.ops[0]
+        if isinstance(op, (ast.In, ast.NotIn)):
+            if isinstance(r, TupleV) and all(isinstance(x, ConstV) and not isinstance(x.v, tuple) for x in r.items):
+                vals = [x.v for x in r.items]
+                if isinstance(l, ConstV) and not isinstance(l.v, tuple):
+                    res = any((l.v is x) or (l.v == x and type(l.v) is type(x)) for x in vals)
+                    return ConstV(res if isinstance(op, ast.In) else not res)
+                if isinstance(l, IntV) and all(not isinstance(x, (int, float)) or isinstance(x, bool) for x in vals):
+                    return ConstV(isinstance(op, ast.NotIn))
+            return Unknown("membership")
         if isinstance(op, (ast.Is, ast.IsNot)):
             if isinstance(l, ConstV) and isinstance(r, ConstV) and (l.v is None or r.v is None):
                 res = (l.v is None) == (r.v is None) if (l.v is None and r.v is None) or True else False
@@ -427,6 +439,16 @@ class SizeEval:
                 if args[0].v in recv.d:
                     return recv.d[args[0].v]
                 return args[1] if len(args) > 1 else ConstV(None)
+            if isinstance(recv, DictV) and nm == "setdefault" and len(args) == 2 and isinstance(args[0], ConstV) and recv.known \
+                    and not self.cond_depth and not self.mult:
+                if args[0].v not in recv.d:
+                    recv.d[args[0].v] = args[1]
+                recv.mutated = True
+                return recv.d[args[0].v]
+            if isinstance(recv, DictV) and nm in ("setdefault", "update", "pop", "clear", "popitem"):
+                recv.known = False
+                recv.mutated = True
+                return Unknown(f"dict.{nm}")
             return Unknown(f"method .{nm}")
         args = [self.ev(a, env, fi) for a in e.args]
         kwargs = {k.arg: self.ev(k.value, env, fi) for k in e.keywords if k.arg}
@@ -611,3 +633,15 @@ class SizeEval:
             base = self.ev(t.value, env, fi)
             if isinstance(base, SeqV) and isinstance(t.slice, ast.Slice):
                 base.box.n = Unknown("slice assignment")
+            if isinstance(base, DictV):
+                base.mutated = True
+                k = self.ev(t.slice, env, fi)
+                if isinstance(k, ConstV) and isinstance(k.v, str) and not self.mult:
+                    if self.cond_depth and k.v in base.d and not self.same(base.d[k.v], v):
+                        base.d[k.v] = Unknown("assigned under an undecided condition")
+                    elif self.cond_depth and k.v not in base.d:
+                        base.known = False
+                    else:
+                        base.d[k.v] = v
+                else:
+                    base.known = False
